@@ -142,7 +142,7 @@ func (r *Rand) intn(n int) int {
 	}
 	return int(r.u64() % uint64(n))
 }
-func (r *Rand) rng(lo, hi int) int { return lo + r.intn(hi-lo+1) } // inclusive
+func (r *Rand) rng(lo, hi int) int     { return lo + r.intn(hi-lo+1) } // inclusive
 func (r *Rand) coin(num, den int) bool { return r.intn(den) < num }
 func (r *Rand) pick(xs []int) int      { return xs[r.intn(len(xs))] }
 func (r *Rand) bytes(n int) []byte {
